@@ -19,3 +19,7 @@ def run(rep):
             if PID in ("C02", "C03"):
                 runs.append(["burst", lib, ch, "k=%d" % (ch + 3 if ch else 6)])
     rt_common.impl_side(rep, PID, runs, lambda a, d: probe.oracle_mixed(d) if a[0] == "mixed" else probe.oracle_burst(d, None if a[2] == 0 else a[2]))
+
+
+def replay(rep, path):
+    return rt_common.replay_generic(rep, path)
